@@ -17,7 +17,7 @@ SPEC = {
     "C05": dict(fn=D.c05_one, file="props/C05.v", gens=["engine"], backends=("pandas", "numpy", "list")),
     "C06": dict(fn=D.c06_one, file="props/C06.v", gens=["engine"], backends=("pandas",)),
     "C07": dict(fn=None, file="props/C07.v", gens=["shipped", "pandas", "python"], backends=("pandas",)),
-    "C09": dict(fn=D.c09_one, file="props/C09.v", gens=["shipped", "pandas"], backends=("pandas", "numpy", "list")),
+    "C09": dict(fn=D.c09_one, file="props/C09.v", gens=["shipped", "pandas", "python"], backends=("pandas", "numpy", "list")),
 }
 
 
